@@ -1,4 +1,5 @@
 import LexVerif.Proof.ParseNumberC11SepLoops
+import LexVerif.Proof.PrefixRepair
 /-!
 # Proof.ParseNumberC11SepPhases — C11 (B) with digit separators: integer, fraction and exponent phase under truncation
 
@@ -38,6 +39,9 @@ structure SepCfg (c : Cfg) (o : POpts) : Prop where
   preSep : ∀ x, c.isSep x = true → matchByte c.basePrefix c.caseSensitiveBasePrefix (some x) = false
   /-- the decimal point is not a mantissa digit -/
   dpDig : charToDigit o.dp c.mantissaRadix = none
+  /-- with the repaired base-prefix phase (`Model.prefixRepair`) the truncation argument is carried out for formats
+  without base prefix only (`set_cursor(prefix_start)` may return to a state that is not a rest state of the skip iterator) -/
+  preRep : prefixRepair = true → c.basePrefix = 0
 
 /-- exact exclusion of the open defect: an exponent predicate that looks for a digit after the separator needs
 mantissa digits ⊆ exponent digits -/
@@ -97,12 +101,11 @@ theorem isDigit_sepH (y : Nat) (hs : c.isSep y = true) : c.isDigit y = false := 
 A cut is admissible when it is admissible for the state the phase returns *if that state is a rest state of the
 iterator* (it is one unless the prefix character was consumed), and lies behind the cursor when integer digits are
 required (the `EmptyInteger` test looks at "end of buffer") -/
-theorem prefixPhase_truncS (b b' : Bytes) (isP : Bool) (hv : Bytes.Valid b) (h : prefixPhase c b = .ok (isP, b')) :
+theorem prefixPhaseCurrent_truncS (b b' : Bytes) (isP : Bool) (hv : Bytes.Valid b) (h : prefixPhaseCurrent c b = .ok (isP, b')) :
     b'.slc = b.slc ∧ b.index ≤ b'.index ∧ Bytes.Valid b' ∧ b' = Bytes.at b b'.index ∧
     ∀ n, b'.index ≤ n → (peek c .integer b' = .ok (b'.slc[b'.index]?, b') → Adm c .integer n b') →
-      (c.requiredIntegerDigits = true → b'.index < n) → prefixPhase c (trunc n b) = .ok (isP, trunc n b') := by
-  unfold prefixPhase at h
-  simp only [prefixRepair, Bool.false_eq_true, if_false] at h
+      (c.requiredIntegerDigits = true → b'.index < n) → prefixPhaseCurrent c (trunc n b) = .ok (isP, trunc n b') := by
+  unfold prefixPhaseCurrent at h
   by_cases hfmt : (c.feats.format && c.basePrefix ≠ 0) = true
   · rw [if_pos hfmt] at h
     cases hr0 : readIfValueCased c .integer 48 b with
@@ -121,8 +124,7 @@ theorem prefixPhase_truncS (b b' : Bytes) (isP : Bool) (hv : Bytes.Valid b) (h :
         intro n hn hadm _
         have hrest := peek_rest c H.rel .integer b b1 _ hv hpk (fun y hy => isDigit_sepH H y hy)
         rw [← r1] at hrest
-        unfold prefixPhase
-        simp only [prefixRepair, Bool.false_eq_true, if_false]
+        unfold prefixPhaseCurrent
         rw [if_pos hfmt, r6 n (fun hh => Bool.noConfusion hh) (fun _ => hadm hrest)]
         simp only [bind, Except.bind, Bool.false_eq_true, if_false, pure, Except.pure]
       | true =>
@@ -163,8 +165,7 @@ theorem prefixPhase_truncS (b b' : Bytes) (isP : Bool) (hv : Bytes.Valid b) (h :
             refine ⟨by rw [q1, r1], by omega, q3, hb2, ?_⟩
             intro n hn hadm hreq
             have hlt0 := (r4 rfl).1
-            unfold prefixPhase
-            simp only [prefixRepair, Bool.false_eq_true, if_false]
+            unfold prefixPhaseCurrent
             rw [if_pos hfmt, r6 n (fun _ => by omega) (fun hh => Bool.noConfusion hh)]
             simp only [bind, Except.bind, if_true]
             have hq7 : readIfValue c .integer c.basePrefix c.caseSensitiveBasePrefix (trunc n b1)
@@ -193,22 +194,41 @@ theorem prefixPhase_truncS (b b' : Bytes) (isP : Bool) (hv : Bytes.Valid b) (h :
     obtain ⟨rfl, rfl⟩ := h
     refine ⟨rfl, Nat.le_refl _, hv, rfl, ?_⟩
     intro n _ _ _
-    unfold prefixPhase
-    simp only [prefixRepair, Bool.false_eq_true, if_false]
+    unfold prefixPhaseCurrent
     rw [if_neg hfmt]
     rfl
+
+theorem prefixPhase_truncS (b b' : Bytes) (isP : Bool) (hv : Bytes.Valid b) (h : prefixPhase c b = .ok (isP, b')) :
+    b'.slc = b.slc ∧ b.index ≤ b'.index ∧ Bytes.Valid b' ∧ b' = Bytes.at b b'.index ∧
+    ∀ n, b'.index ≤ n → (peek c .integer b' = .ok (b'.slc[b'.index]?, b') → Adm c .integer n b') →
+      (c.requiredIntegerDigits = true → b'.index < n) → prefixPhase c (trunc n b) = .ok (isP, trunc n b') := by
+  by_cases hR : prefixRepair = true
+  · -- repaired prefix phase: no base prefix in this class (`SepCfg.preRep`), nothing is read
+    have hoff : ¬ (c.feats.format && c.basePrefix ≠ 0) = true := by simp [H.preRep hR]
+    rw [LexVerif.Proof.PrefixRepair.prefixPhase_off c b hoff] at h
+    simp only [Except.ok.injEq, Prod.mk.injEq] at h
+    obtain ⟨rfl, rfl⟩ := h
+    refine ⟨rfl, Nat.le_refl _, hv, rfl, ?_⟩
+    intro n _ _ _
+    exact LexVerif.Proof.PrefixRepair.prefixPhase_off c (trunc n b) hoff
+  · rw [LexVerif.Proof.PrefixRepair.prefixPhase_eq_current c b hR] at h
+    obtain ⟨h1, h2, h3, h4, h5⟩ := prefixPhaseCurrent_truncS H b b' isP hv h
+    refine ⟨h1, h2, h3, h4, ?_⟩
+    intro n a1 a2 a3
+    rw [LexVerif.Proof.PrefixRepair.prefixPhase_eq_current c (trunc n b) hR]
+    exact h5 n a1 a2 a3
 
 /-- when the integer iterator does not return `'0'`, the base-prefix phase reads nothing: it returns the state after
 that `peek` (a base prefix is configured) or the state it was given -/
 theorem prefixPhase_miss (b b1 : Bytes) (v : Option Nat) (hp : peek c .integer b = .ok (v, b1)) (hv48 : v ≠ some 48) :
     prefixPhase c b = .ok (false, if (c.feats.format && c.basePrefix ≠ 0) = true then b1 else b) := by
-  unfold prefixPhase
-  simp only [prefixRepair, Bool.false_eq_true, if_false]
+  unfold prefixPhase prefixPhaseRepaired prefixPhaseCurrent
   by_cases hfmt : (c.feats.format && c.basePrefix ≠ 0) = true
-  · rw [if_pos hfmt, if_pos hfmt, readIfValueCased_eqS H.rel .integer 48 b b1 v hp, if_neg hv48]
+  · rw [if_pos hfmt, if_pos hfmt, if_pos hfmt, readIfValueCased_eqS H.rel .integer 48 b b1 v hp, if_neg hv48]
     simp only [bind, Except.bind, Bool.false_eq_true, if_false, pure, Except.pure]
-  · rw [if_neg hfmt, if_neg hfmt]
-    rfl
+    split <;> rfl
+  · rw [if_neg hfmt, if_neg hfmt, if_neg hfmt]
+    split <;> rfl
 
 /-- a rest state of the integer iterator from which the digit pass was started accepts every cut the end state of the
 pass accepts -/
